@@ -6,10 +6,13 @@ import math
 import os
 import re
 import subprocess
+import tempfile
+import time
 from fractions import Fraction
 
 VERIF = os.path.dirname(os.path.dirname(os.path.abspath(__file__)))
 PY = os.environ.get("VERIF_NATIVE_PY", "/venv/bin/python")
+WATCHDOG_S = int(os.environ.get("VERIF_WATCHDOG_S", "150"))
 
 
 def batch(reqs, timeout=600, env_extra=None):
@@ -18,10 +21,61 @@ def batch(reqs, timeout=600, env_extra=None):
     env.pop("PYTHONPATH", None)
     if env_extra:
         env.update(env_extra)
-    p = subprocess.run([PY, os.path.join(VERIF, "native", "helper.py")], input=json.dumps(reqs), capture_output=True,
-                       text=True, timeout=timeout, env=env)
-    if p.returncode != 0:
-        raise RuntimeError("native helper failed: %s" % p.stderr[-2000:])
+    if os.environ.get("VERIF_TRACE"):
+        import sys
+        print("[native %s] %s timeout=%s" % (time.strftime("%H:%M:%S"), [r.get("cmd") for r in reqs], timeout), file=sys.stderr, flush=True)
+    # watchdog: harnesses journal their partial result after every failure they record (native/h_gen.py Budget).  A product
+    # call that never returns (e.g. compiled code on a structure that grows from call to call) cannot be interrupted from
+    # inside; once failures are journalled and the helper has had WATCHDOG_S more seconds it is killed and the journal is
+    # the result.  A run without failures is never cut short, so the watchdog cannot hide a violation.
+    journal = None
+    if len(reqs) == 1:
+        fd, journal = tempfile.mkstemp(prefix="verif-journal-", suffix=".json")
+        os.close(fd)
+        os.unlink(journal)
+        env["VERIF_JOURNAL"] = journal
+    so, se = tempfile.TemporaryFile("w+"), tempfile.TemporaryFile("w+")
+    proc = subprocess.Popen([PY, os.path.join(VERIF, "native", "helper.py")], stdin=subprocess.PIPE, stdout=so, stderr=se, text=True, env=env)
+    try:
+        proc.stdin.write(json.dumps(reqs))
+        proc.stdin.close()
+    except BrokenPipeError:
+        pass
+    t0 = time.monotonic()
+    seen = None
+    killed = False
+    while proc.poll() is None:
+        try:
+            proc.wait(timeout=0.5)
+            break
+        except subprocess.TimeoutExpired:
+            pass
+        now = time.monotonic()
+        if journal and seen is None and os.path.exists(journal):
+            seen = now
+        if (seen is not None and now - seen > WATCHDOG_S) or now - t0 > timeout:
+            proc.kill()
+            proc.wait()
+            killed = True
+            break
+    try:
+        if killed:
+            if journal and os.path.exists(journal):
+                with open(journal) as f:
+                    res = json.load(f)
+                res["watchdog"] = "helper killed %d s after its first journalled failure (%d s in all)" % (time.monotonic() - (seen or t0), time.monotonic() - t0)
+                return [res]
+            raise subprocess.TimeoutExpired("native helper %s" % [r.get("cmd") for r in reqs], timeout)
+        so.seek(0)
+        se.seek(0)
+        p = subprocess.CompletedProcess(proc.args, proc.returncode, so.read(), se.read())
+    finally:
+        so.close()
+        se.close()
+        if journal:
+            for q in (journal, journal + ".tmp"):
+                if os.path.exists(q):
+                    os.unlink(q)
     # the product prints diagnostics on stdout (e.g. the lexer's "Illegal character"); the JSON answer is the last line
     out = p.stdout
     start = out.rfind("\n[{")
